@@ -6,7 +6,7 @@ import encgen as E
 import pyref as R
 from props import (check, parts, classes, strip_model, decoder_domain, dec_lines, gen_pickles, kept_corpus,
                    CONFIGS, tag_hist, valid_pickles, model_ok_input)
-from props_enc import enc_obs, run_enc, nan_class, enc_values, kinds_hist
+from props_enc import enc_obs, run_enc, nan_class, enc_values, kinds_hist, LAST_ENV
 
 def hex_to_dec_longs(dump):
     def f(m):
@@ -374,8 +374,32 @@ def c18(res, rng, tier):
                           {"kind": "impl", "case": elines[j][:800], "decoded": do[:600], "expected": want[:600]})
         else:
             nontriv += 1
+    # the theorem (Props/C18.v C18_registry_hook): with the registry hook inv_load installed, Decode of
+    # Encode's output returns hmap inv_g (norm c v); prediction, model decoder and implementation compared
+    hlines = ["dec %s %s 5 %s" % ("1" if k % 2 else "0", l.split()[2], l.split()[-1]) for k, l in enumerate(dlines)]
+    himpl = C.implrun(hlines)
+    hmodel = C.modelrun(hlines)
+    hpred = C.modelrun(["normh %d %s %s" % (emeta[j][1], emeta[j][2], E.tokens(emeta[j][0])) for j in dmeta], env=LAST_ENV.get("C18"))
+    in_fragment = 0
+    for k, ho in enumerate(himpl):
+        j = dmeta[k]
+        if "#staleappend" not in hmodel[k] and strip_model(hmodel[k]) != ho:
+            res.violation("correspondence: model and implementation differ when decoding Encode's output with the registry hook",
+                          {"kind": "correspondence", "case": elines[j][:600], "dec": hlines[k][:600], "model": hmodel[k][:500], "impl": ho[:500]}, found_input=False)
+            continue
+        if hpred[k] == "NA":
+            continue
+        in_fragment += 1
+        got = parts(ho.partition(" #log ")[0])[0]
+        if got != hpred[k]:
+            res.violation("theorem C18_registry_hook predicts %s, Decode(Encode(v)) with the registry hook gives %s" % (hpred[k][:200], got[:200]),
+                          {"kind": "correspondence", "theorem": "Props/C18.v C18_registry_hook / Norm.hmap", "case": elines[j][:800],
+                           "dec": hlines[k][:800], "predicted": hpred[k][:600], "impl": ho[:600]})
+        else:
+            nontriv += 1
     res.coverage.update({
-        "evaluations": len(lines) + len(elines) + len(dlines), "distinct_nontrivial": nontriv,
+        "inverse_hook_runs": len(hlines), "inverse_hook_runs_in_theorem_fragment": in_fragment,
+        "evaluations": len(lines) + len(elines) + len(dlines) + len(hlines), "distinct_nontrivial": nontriv,
         "rule": "Decode: grammar programs containing PERSID / BINPERSID + hand-assembled ones (ids that are strings, ints, tuples, nested refs, MARK under BINPERSID, streams) x 4 configs x hook behaviours {keep (nil), replace, fail every third call, replace string ids only}; the call log is compared with CPython's own persistent_load call sequence on the same stream and with the model. Encode: object graphs with pointers to structs in every position (top level, **T and ***T chains, map values, struct fields, tuple / call arguments, inside unmapped and mapped objects), ids {string, multi-line string, tuple, int, nested tuple, ByteString, non-ASCII, None} x protocols 0..5; number of hook consultations and hits compared with the traversal, output decoded again with PersistentLoad; non-trivial = cases whose log / result matched",
         "programs": len(lines) + len(elines), "disagreements_checked": len(lines) + len(elines) + len(dlines)})
     res.samples = [{"case": lines[i][:100], "impl": impl[i][:140]} for i in range(0, len(lines), max(1, len(lines) // 4))] + \
